@@ -932,3 +932,688 @@ Proof.
   - rewrite firstn_all2 by (rewrite app_length, !repeat_length; lia).
     apply read_coeffs_ones; [lia|intros; lia].
 Qed.
+
+(* ---------------- gather / scatter ---------------- *)
+Notation zr := (EncoderSlices.zrange 0).
+
+Lemma in_zrange a b y : In y (EncoderSlices.zrange a b) <-> a <= y < b.
+Proof.
+  unfold EncoderSlices.zrange. rewrite in_map_iff. split.
+  - intros [i [<- Hi]]. apply in_seq in Hi. lia.
+  - intros H. exists (Z.to_nat (y - a)). split; [lia|]. apply in_seq. lia.
+Qed.
+
+Lemma in_slice_positions st comp level sx sy y x :
+  In (y, x) (slice_positions st comp level sx sy) <->
+  slice_top st sy comp level <= y < slice_bottom st sy comp level /\
+  slice_left st sx comp level <= x < slice_right st sx comp level.
+Proof.
+  unfold slice_positions. rewrite in_flat_map. split.
+  - intros [y' [Hy Hin]]. apply in_map_iff in Hin. destruct Hin as [x' [E Hx]]. inversion E; subst.
+    rewrite in_zrange in Hy, Hx. tauto.
+  - intros [Hy Hx]. exists y. split; [apply in_zrange; assumption|].
+    apply in_map_iff. exists x. split; [reflexivity|apply in_zrange; assumption].
+Qed.
+
+Definition band_shape (b : band) (h w : nat) : Prop := length b = h /\ Forall (fun r => length r = w) b.
+
+Lemma band_shape_row b h w y : band_shape b h w -> (y < h)%nat -> length (nth y b []) = w.
+Proof. intros [Hl Hf] Hy. rewrite Forall_forall in Hf. apply Hf. apply nth_In. lia. Qed.
+
+Lemma band_shape_in b h w y x : band_shape b h w -> (in_band b y x <-> (y < h /\ x < w)%nat).
+Proof.
+  intros Hs. unfold in_band. destruct Hs as [Hl Hf]. split.
+  - intros [Hy Hx]. split; [lia|]. rewrite (band_shape_row b h w y (conj Hl Hf)) in Hx by lia. assumption.
+  - intros [Hy Hx]. split; [lia|]. rewrite (band_shape_row b h w y (conj Hl Hf)) by lia. assumption.
+Qed.
+
+Lemma band_ext b1 b2 h w :
+  band_shape b1 h w -> band_shape b2 h w ->
+  (forall y x, (y < h)%nat -> (x < w)%nat -> bget b1 y x = bget b2 y x) -> b1 = b2.
+Proof.
+  intros S1 S2 H. apply (nth_ext b1 b2 [] []); [destruct S1, S2; congruence|].
+  intros y Hy. destruct S1 as [L1 F1]. rewrite L1 in Hy.
+  apply (nth_ext _ _ 0 0).
+  - rewrite (band_shape_row b1 h w y (conj L1 F1)), (band_shape_row b2 h w y S2) by assumption. reflexivity.
+  - intros x Hx. rewrite (band_shape_row b1 h w y (conj L1 F1)) in Hx by assumption. apply H; assumption.
+Qed.
+
+Lemma band_shape_bset b h w y x v : band_shape b h w -> band_shape (bset b y x v) h w.
+Proof.
+  intros [Hl Hf]. unfold bset. split; [rewrite list_set_length; assumption|].
+  apply Forall_forall. intros r Hr. apply In_nth with (d := []) in Hr. destruct Hr as [i [Hi <-]].
+  rewrite list_set_length in Hi. rewrite Forall_forall in Hf.
+  destruct (Nat.eq_dec y i) as [->|Hne].
+  - rewrite nth_list_set_same by assumption. rewrite list_set_length. apply Hf. apply nth_In. assumption.
+  - rewrite nth_list_set_other by assumption. apply Hf. apply nth_In. assumption.
+Qed.
+
+Lemma zero_band_shape h w : band_shape (zero_band h w) h w.
+Proof.
+  unfold zero_band, band_shape. rewrite repeat_length. split; [reflexivity|].
+  apply Forall_forall. intros r Hr. apply repeat_spec in Hr. subst. apply repeat_length.
+Qed.
+
+(* writing source values can only extend the set of positions that agree with the source *)
+Definition agree (b src : band) (y x : nat) : Prop := bget b y x = bget src y x.
+
+Lemma agree_step b src y x y' x' :
+  agree b src y x -> agree (zset b y' x' (zget src y' x')) src y x.
+Proof.
+  unfold agree, zset, zget. intros H.
+  destruct (in_band_dec b (Z.to_nat y') (Z.to_nat x')) as [Hin|Hout]; [|rewrite bset_out by assumption; assumption].
+  destruct (Nat.eq_dec y (Z.to_nat y')) as [->|Hy].
+  - destruct (Nat.eq_dec x (Z.to_nat x')) as [->|Hx].
+    + apply bget_bset_same. assumption.
+    + rewrite bget_bset_other by congruence. assumption.
+  - rewrite bget_bset_other by congruence. assumption.
+Qed.
+
+Lemma agree_made b src (y' x' : Z) :
+  in_band b (Z.to_nat y') (Z.to_nat x') -> agree (zset b y' x' (zget src y' x')) src (Z.to_nat y') (Z.to_nat x').
+Proof. intros Hin. unfold agree, zset, zget. apply bget_bset_same. assumption. Qed.
+
+Definition write_from (src b : band) (ps : list (Z * Z)) : band :=
+  fold_left (fun b p => zset b (fst p) (snd p) (zget src (fst p) (snd p))) ps b.
+
+Lemma write_from_shape src ps : forall b h w, band_shape b h w -> band_shape (write_from src b ps) h w.
+Proof.
+  induction ps as [|p ps IH]; intros b h w Hs; [assumption|].
+  cbn [write_from fold_left]. apply IH. apply band_shape_bset. assumption.
+Qed.
+
+Lemma write_from_keeps src ps : forall b y x, agree b src y x -> agree (write_from src b ps) src y x.
+Proof.
+  induction ps as [|p ps IH]; intros b y x H; [assumption|].
+  cbn [write_from fold_left]. apply IH. apply agree_step. assumption.
+Qed.
+
+Lemma write_from_makes src ps : forall b h w (y x : Z),
+  band_shape b h w -> In (y, x) ps -> (Z.to_nat y < h)%nat -> (Z.to_nat x < w)%nat ->
+  agree (write_from src b ps) src (Z.to_nat y) (Z.to_nat x).
+Proof.
+  induction ps as [|p ps IH]; intros b h w y x Hs Hin Hy Hx; [destruct Hin|].
+  cbn [write_from fold_left]. destruct Hin as [->|Hin].
+  - apply write_from_keeps. cbn [fst snd]. apply agree_made. apply (band_shape_in b h w); [assumption|lia].
+  - apply (IH _ h w); try assumption. apply band_shape_bset. assumption.
+Qed.
+
+Lemma scatter_positions_gather src ps : forall b rest,
+  scatter_positions b ps (map (fun yx => zget src (fst yx) (snd yx)) ps ++ rest) = (write_from src b ps, rest).
+Proof.
+  induction ps as [|[y x] ps IH]; intros b rest; [reflexivity|].
+  cbn [map app scatter_positions fst snd]. rewrite IH. reflexivity.
+Qed.
+
+(* per-subband invariant: same level / matrix entry / shape as the source, and agreement
+   with the source on every position belonging to an already processed slice (set D) *)
+Definition sb_inv (st : pystate) (comp : pystr) (D : Z * Z -> Prop) (s0 s : subband) : Prop :=
+  sb_level s0 = sb_level s /\ sb_qm s0 = sb_qm s /\
+  (exists h w, band_shape (sb_band s0) h w /\ band_shape (sb_band s) h w) /\
+  forall y x sx sy, D (sx, sy) -> In (y, x) (slice_positions st comp (sb_level s) sx sy) ->
+     in_band (sb_band s) (Z.to_nat y) (Z.to_nat x) -> agree (sb_band s0) (sb_band s) (Z.to_nat y) (Z.to_nat x).
+
+Lemma scatter_component_inv st comp D sx sy : forall bs bands rest,
+  Forall2 (sb_inv st comp D) bs bands ->
+  Forall2 (sb_inv st comp (fun p => D p \/ p = (sx, sy)))
+          (scatter_component st comp bs sx sy (fst (gather_component st comp bands sx sy) ++ rest)) bands.
+Proof.
+  intros bs bands rest H. revert rest. induction H as [|s0 s bs bands Hs H IH]; intros rest; [constructor|].
+  cbn [gather_component fst flat_map scatter_component]. rewrite <- app_assoc.
+  destruct Hs as (Hl & Hq & (h & w & S0 & S1) & Hag).
+  rewrite Hl. rewrite scatter_positions_gather. constructor.
+  - unfold sb_inv. cbn [sb_level sb_qm sb_band fst snd]. fold (sb_level s) (sb_qm s0) (sb_qm s) (sb_band s).
+    split; [reflexivity|]. split; [assumption|]. split.
+    + exists h, w. split; [apply write_from_shape; assumption|assumption].
+    + intros y x sx' sy' [HD|HD] Hin Hb.
+      * apply write_from_keeps. apply (Hag y x sx' sy'); assumption.
+      * inversion HD; subst. pose proof (proj1 (band_shape_in _ h w _ _ S1) Hb) as Hb'.
+        apply (write_from_makes _ _ _ h w); try assumption; lia.
+  - apply IH.
+Qed.
+
+Lemma sb_inv_mono st comp (D D' : Z * Z -> Prop) bs bands :
+  (forall p, D' p -> D p) -> Forall2 (sb_inv st comp D) bs bands -> Forall2 (sb_inv st comp D') bs bands.
+Proof.
+  intros HD H. induction H as [|s0 s bs bands Hs H IH]; constructor; [|assumption].
+  destruct Hs as (Hl & Hq & Hsh & Hag). repeat split; try assumption.
+  intros y x sx sy Hd. apply Hag. apply HD. assumption.
+Qed.
+
+(* enumerate over a mapped range *)
+Lemma enum_map_seq {A} (f : Z -> A) k m :
+  enum_from (Z.of_nat k) (map f (map (fun i => 0 + Z.of_nat i) (seq k m))) =
+  map (fun i => (i, f i)) (map (fun i => 0 + Z.of_nat i) (seq k m)).
+Proof.
+  revert k. induction m as [|m IH]; intros k; [reflexivity|].
+  cbn [seq map enum_from]. replace (Z.of_nat k + 1) with (Z.of_nat (S k)) by lia. rewrite IH. reflexivity.
+Qed.
+
+Lemma enumerate_map_zr {A} (f : Z -> A) n : enumerate (map f (zr n)) = map (fun i => (i, f i)) (zr n).
+Proof. unfold enumerate, EncoderSlices.zrange. apply (enum_map_seq f O). Qed.
+
+Lemma fold_left_map {A B C} (f : A -> C -> A) (g : B -> C) l a :
+  fold_left f (map g l) a = fold_left (fun a b => f a (g b)) l a.
+Proof. revert a. induction l; intros; cbn; auto. Qed.
+
+Lemma scatter_all_unfold st comp bs (V : Z -> Z -> list Z) nx ny :
+  scatter_all st comp bs (map (fun sy => map (fun sx => V sx sy) (zr nx)) (zr ny)) =
+  fold_left (fun bs sy => fold_left (fun bs sx => scatter_component st comp bs sx sy (V sx sy)) (zr nx) bs) (zr ny) bs.
+Proof.
+  unfold scatter_all. rewrite enumerate_map_zr, fold_left_map. cbn [fst snd].
+  revert bs. induction (zr ny) as [|sy l IH]; intros bs; [reflexivity|].
+  cbn [fold_left]. rewrite IH. f_equal. rewrite enumerate_map_zr, fold_left_map. reflexivity.
+Qed.
+
+Lemma row_inv st comp bands sy D : forall l bs,
+  Forall2 (sb_inv st comp D) bs bands ->
+  Forall2 (sb_inv st comp (fun p => D p \/ (snd p = sy /\ In (fst p) l)))
+    (fold_left (fun bs sx => scatter_component st comp bs sx sy (fst (gather_component st comp bands sx sy))) l bs) bands.
+Proof.
+  intros l. revert D. induction l as [|sx l IH]; intros D bs H.
+  - cbn [fold_left]. eapply sb_inv_mono; [|exact H]. intros p [Hp|[_ []]]. assumption.
+  - cbn [fold_left].
+    pose proof (scatter_component_inv st comp D sx sy bs bands [] H) as H1. rewrite app_nil_r in H1.
+    apply IH in H1. eapply sb_inv_mono; [|exact H1].
+    intros [px py] [Hp|[Hy [Hx|Hx]]]; cbn [fst snd] in *.
+    + left. left. assumption.
+    + left. right. subst. reflexivity.
+    + right. split; assumption.
+Qed.
+
+Lemma all_inv st comp bands nx : forall l D bs,
+  Forall2 (sb_inv st comp D) bs bands ->
+  Forall2 (sb_inv st comp (fun p => D p \/ (In (snd p) l /\ In (fst p) (zr nx))))
+    (fold_left (fun bs sy => fold_left (fun bs sx => scatter_component st comp bs sx sy (fst (gather_component st comp bands sx sy)))
+                                       (zr nx) bs) l bs) bands.
+Proof.
+  induction l as [|sy l IH]; intros D bs H.
+  - cbn [fold_left]. eapply sb_inv_mono; [|exact H]. intros p [Hp|[[] _]]. assumption.
+  - cbn [fold_left]. apply (row_inv st comp bands sy D (zr nx)) in H. apply IH in H.
+    eapply sb_inv_mono; [|exact H].
+    intros [px py] [Hp|[[Hy|Hy] Hx]]; cbn [fst snd] in *.
+    + left. left. assumption.
+    + left. right. split; [symmetry; assumption|assumption].
+    + right. split; assumption.
+Qed.
+
+(* the source arrays have the shape the decoder allocates (13.2.2) *)
+Definition shape_ok (st : pystate) (comp : pystr) (s : subband) : Prop :=
+  band_shape (sb_band s) (Z.to_nat (subband_height st (sb_level s) comp)) (Z.to_nat (subband_width st (sb_level s) comp)).
+
+Lemma init_inv st comp bands :
+  Forall (shape_ok st comp) bands ->
+  Forall2 (sb_inv st comp (fun _ => False)) (init_bands st comp (map (fun s => (sb_level s, sb_qm s)) bands)) bands.
+Proof.
+  intros H. induction H as [|s bands Hs H IH]; [constructor|].
+  cbn [map init_bands]. constructor; [|exact IH].
+  unfold sb_inv. cbn [sb_level sb_qm sb_band fst snd]. repeat split.
+  - eexists. eexists. split; [apply zero_band_shape|exact Hs].
+  - intros ? ? ? ? [].
+Qed.
+
+(* scattering the gathered slices back reproduces every coefficient array: the encoder's
+   gathering order and the decoder's reading order are inverse, and the slices cover
+   every coefficient (C13 partition) *)
+Theorem gather_scatter st comp bands :
+  good_state st ->
+  Forall (fun s => 0 <= sb_level s <= depth_sum st + 1) bands ->
+  Forall (shape_ok st comp) bands ->
+  scatter_all st comp (init_bands st comp (map (fun s => (sb_level s, sb_qm s)) bands))
+    (map (fun sy => map (fun sx => fst (gather_component st comp bands sx sy)) (zr (st_slices_x st))) (zr (st_slices_y st)))
+  = bands.
+Proof.
+  intros Hg Hlev Hshape. rewrite scatter_all_unfold.
+  pose proof (all_inv st comp bands (st_slices_x st) (zr (st_slices_y st)) _ _ (init_inv st comp bands Hshape)) as H.
+  set (R := fold_left _ _ _) in *. clearbody R.
+  revert Hlev Hshape. induction H as [|s0 s bs bands Hs H IH]; intros Hlev Hshape; [reflexivity|].
+  inversion Hlev; subst. inversion Hshape; subst. f_equal; [|apply IH; assumption].
+  destruct Hs as (Hl & Hq & (h & w & S0 & S1) & Hag).
+  destruct s0 as [[l0 q0] b0], s as [[l1 q1] b1]. cbn [sb_level sb_qm sb_band fst snd] in *. subst l0 q0. f_equal.
+  match goal with Hsh : shape_ok _ _ _ |- _ => unfold shape_ok in Hsh; cbn [sb_level sb_band fst snd] in Hsh end.
+  apply (band_ext b0 b1 h w S0 S1). intros y x Hy Hx.
+  assert (h = Z.to_nat (subband_height st l1 comp) /\ w = Z.to_nat (subband_width st l1 comp)) as [Hh Hw].
+  { destruct S1 as [L1 F1]. match goal with Hsh : band_shape b1 _ _ |- _ => destruct Hsh as [L2 F2] end.
+    split; [congruence|]. destruct b1 as [|r b1]; [cbn in L1; lia|].
+    inversion F1; inversion F2; subst. congruence. }
+  match goal with Hlv : 0 <= l1 <= _ |- _ => rename Hlv into Hl1 end.
+  destruct (cover_unique_x st comp l1 (Z.of_nat x) Hg Hl1 ltac:(lia)) as [sx [[Hsx Hcx] _]].
+  destruct (cover_unique_y st comp l1 (Z.of_nat y) Hg Hl1 ltac:(lia)) as [sy [[Hsy Hcy] _]].
+  specialize (Hag (Z.of_nat y) (Z.of_nat x) sx sy). rewrite !Nat2Z.id in Hag. apply Hag.
+  - right. cbn [fst snd]. split; apply in_zrange; lia.
+  - apply in_slice_positions. split; assumption.
+  - apply (band_shape_in b1 h w); [assumption|lia].
+Qed.
+
+(* ---------------- one slice through the wire ---------------- *)
+Definition cc_ok (cc : ccoeffs) : Prop := length (snd cc) = length (fst cc) /\ Forall (fun m => 0 <= m) (snd cc).
+
+Lemma dequantize_0 vals qms : length qms = length vals -> Forall (fun m => 0 <= m) qms -> dequantize_coeffs 0 vals qms = vals.
+Proof.
+  revert qms. induction vals as [|v vals IH]; intros [|m qms] Hl Hq; try discriminate; [reflexivity|].
+  unfold dequantize_coeffs in *. cbn [combine map fst snd]. inversion Hq; subst.
+  rewrite IH by (cbn in Hl; try lia; assumption). f_equal.
+  unfold py_max. replace (Z.max (0 - m) 0) with 0 by lia. apply index0_lossless.
+Qed.
+
+(* a block at least as long as the coefficients need, read back and dequantised with index 0 *)
+Lemma block_roundtrip_0 cs qms (len : Z) :
+  length qms = length cs -> Forall (fun m => 0 <= m) qms -> calculate_coeffs_bits cs <= len ->
+  dequantize_coeffs 0 (read_coeffs (length qms) (block_bits (Z.to_nat len) cs)) qms = cs.
+Proof.
+  intros Hl Hq Hb. rewrite Hl. rewrite coeff_bits_trailing_zeros by (pose proof (ccb_nonneg cs); lia).
+  apply dequantize_0; assumption.
+Qed.
+
+Theorem hq_slice_q0_roundtrip s sc sl :
+  0 < s -> cc_ok (sc_Y sc) -> cc_ok (sc_C1 sc) -> cc_ok (sc_C2 sc) ->
+  hq_qindex sl = 0 ->
+  hq_y sl = fst (sc_Y sc) -> hq_c1 sl = fst (sc_C1 sc) -> hq_c2 sl = fst (sc_C2 sc) ->
+  calculate_hq_length_field (hq_y sl) s <= hq_y_length sl ->
+  calculate_hq_length_field (hq_c1 sl) s <= hq_c1_length sl ->
+  calculate_hq_length_field (hq_c2 sl) s <= hq_c2_length sl ->
+  hq_slice_roundtrip s sc sl = (fst (sc_Y sc), fst (sc_C1 sc), fst (sc_C2 sc)).
+Proof.
+  intros Hs [Ly Qy] [L1 Q1] [L2 Q2] Hq Hy Hc1 Hc2 By B1 B2.
+  unfold hq_slice_roundtrip. rewrite Hq, Hy, Hc1, Hc2 in *.
+  pose proof (hq_len_spec (fst (sc_Y sc)) s Hs) as [S1 _].
+  pose proof (hq_len_spec (fst (sc_C1 sc)) s Hs) as [S2 _].
+  pose proof (hq_len_spec (fst (sc_C2 sc)) s Hs) as [S3 _].
+  rewrite !block_roundtrip_0; try assumption; try reflexivity; nia.
+Qed.
+
+(* lossy HQ slice that got index 0 *)
+Corollary hq_lossy_q0_roundtrip st s minq sx sy sc sl :
+  0 < s -> cc_ok (sc_Y sc) -> cc_ok (sc_C1 sc) -> cc_ok (sc_C2 sc) ->
+  hq_slice_ok st s minq sx sy sc sl -> hq_qindex sl = 0 ->
+  hq_slice_roundtrip s sc sl = (fst (sc_Y sc), fst (sc_C1 sc), fst (sc_C2 sc)).
+Proof.
+  intros Hs Cy C1 C2 Hok Hq.
+  pose proof (hso_y _ _ _ _ _ _ _ Hok) as Ey. pose proof (hso_c1 _ _ _ _ _ _ _ Hok) as E1.
+  pose proof (hso_c2 _ _ _ _ _ _ _ Hok) as E2. pose proof (hso_ylen _ _ _ _ _ _ _ Hok) as Ly.
+  pose proof (hso_c1len _ _ _ _ _ _ _ Hok) as L1. pose proof (hso_c2len _ _ _ _ _ _ _ Hok) as L2.
+  rewrite Hq in *.
+  apply hq_slice_q0_roundtrip; try assumption.
+  - rewrite Ey. apply quantize_coeffs_0; apply Cy.
+  - rewrite E1. apply quantize_coeffs_0; apply C1.
+  - rewrite E2. apply quantize_coeffs_0; apply C2.
+  - lia.
+  - lia.
+Qed.
+
+(* lossless packer: the slice it builds for sc, for ANY scaler >= 1 *)
+Definition lossless_slice (s : Z) (sc : scoeffs) : hq_slice :=
+  rescale_hq_slice s (make_hq_slice (fst (sc_Y sc)) (fst (sc_C1 sc)) (fst (sc_C2 sc)) None 0 1).
+
+Lemma lossless_packer_slices rows mins :
+  let s := fst (make_transform_data_hq_lossless rows mins) in
+  1 <= s /\ snd (make_transform_data_hq_lossless rows mins) = map (lossless_slice s) (concat rows).
+Proof.
+  unfold make_transform_data_hq_lossless. cbn [fst snd]. split; [unfold py_max; lia|].
+  rewrite map_map. reflexivity.
+Qed.
+
+Lemma rescale_len cs s : 1 <= s ->
+  calculate_hq_length_field cs s <= py_div (calculate_hq_length_field cs 1 + (s - 1)) s.
+Proof.
+  intros Hs. unfold calculate_hq_length_field, py_div. pose proof (ccb_nonneg cs).
+  set (b := calculate_coeffs_bits cs) in *.
+  replace (8 * 1) with 8 by lia.
+  assert (8 * s * ((b + 8 * s - 1) / (8 * s) - 1) < b) by lia.
+  assert (b <= 8 * ((b + 8 - 1) / 8)) by lia.
+  assert (Hk : (b + 8 - 1) / 8 <= s * (((b + 8 - 1) / 8 + (s - 1)) / s)) by lia.
+  destruct (Z_le_gt_dec ((b + 8 * s - 1) / (8 * s)) (((b + 8 - 1) / 8 + (s - 1)) / s)); [assumption|exfalso].
+  nia.
+Qed.
+
+Theorem lossless_slice_roundtrip s sc :
+  1 <= s -> cc_ok (sc_Y sc) -> cc_ok (sc_C1 sc) -> cc_ok (sc_C2 sc) ->
+  hq_slice_roundtrip s sc (lossless_slice s sc) = (fst (sc_Y sc), fst (sc_C1 sc), fst (sc_C2 sc)).
+Proof.
+  intros Hs Cy C1 C2. apply hq_slice_q0_roundtrip; try assumption; try reflexivity; try lia;
+    unfold lossless_slice, rescale_hq_slice, make_hq_slice; cbn [hq_y hq_c1 hq_c2 hq_y_length hq_c1_length hq_c2_length];
+    apply rescale_len; assumption.
+Qed.
+
+(* LD *)
+Lemma deinterleave_interleave a b : length a = length b -> deinterleave (interleave a b) = (a, b).
+Proof.
+  revert b. induction a as [|x a IH]; intros [|y b] H; try discriminate; [reflexivity|].
+  unfold interleave in *. cbn [combine flat_map app fst snd deinterleave]. rewrite IH by (cbn in H; lia). reflexivity.
+Qed.
+
+Lemma interleave_length a b : length a = length b -> length (interleave a b) = (2 * length a)%nat.
+Proof.
+  revert b. induction a as [|x a IH]; intros [|y b] H; try discriminate; [reflexivity|].
+  unfold interleave in *. cbn [combine flat_map app fst snd length]. rewrite IH by (cbn in H; lia). lia.
+Qed.
+
+Lemma interleave_forall (P : Z -> Prop) a b : Forall P a -> Forall P b -> Forall P (interleave a b).
+Proof.
+  revert b. induction a as [|x a IH]; intros [|y b] Ha Hb; try constructor.
+  - inversion Ha; assumption.
+  - unfold interleave in *. cbn [combine flat_map app fst snd]. inversion Ha; inversion Hb; subst.
+    constructor; [assumption|]. apply IH; assumption.
+Qed.
+
+Theorem ld_q0_roundtrip st minq sx sy sc sl :
+  cc_ok (sc_Y sc) -> cc_ok (sc_C1 sc) -> cc_ok (sc_C2 sc) -> length (fst (sc_C1 sc)) = length (fst (sc_C2 sc)) ->
+  ld_slice_ok st minq sx sy sc sl -> ld_qindex sl = 0 ->
+  ld_slice_roundtrip (slice_bytes st sx sy) sc sl = (fst (sc_Y sc), fst (sc_C1 sc), fst (sc_C2 sc)).
+Proof.
+  intros [Ly Qy] [L1 Q1] [L2 Q2] Hcl Hok Hq.
+  pose proof (lso_y _ _ _ _ _ _ Hok) as lso_y0. pose proof (lso_c _ _ _ _ _ _ Hok) as lso_c0.
+  pose proof (lso_exact _ _ _ _ _ _ Hok) as lso_exact0.
+  unfold ld_slice_roundtrip. rewrite Hq in *.
+  assert (Hy : ld_y sl = fst (sc_Y sc)) by (rewrite lso_y0; apply quantize_coeffs_0; assumption).
+  assert (Hc : ld_c sl = interleave (fst (sc_C1 sc)) (fst (sc_C2 sc))).
+  { rewrite lso_c0. apply quantize_coeffs_0.
+    - rewrite !interleave_length by congruence. lia.
+    - apply interleave_forall; assumption. }
+  unfold ld_slice_fits in lso_exact0. rewrite Hy, Hc in *.
+  set (Yb := calculate_coeffs_bits (fst (sc_Y sc))) in *.
+  set (Cb := calculate_coeffs_bits (interleave (fst (sc_C1 sc)) (fst (sc_C2 sc)))) in *.
+  assert (ld_y_length sl = Yb /\ Yb + Cb <= ld_payload_bits (slice_bytes st sx sy)) as [E1 E2] by lia.
+  rewrite block_roundtrip_0; try assumption; [|fold Yb; lia].
+  rewrite block_roundtrip_0.
+  - rewrite deinterleave_interleave by assumption. reflexivity.
+  - rewrite !interleave_length by congruence. lia.
+  - apply interleave_forall; assumption.
+  - fold Cb. lia.
+Qed.
+
+(* ---------------- one picture through the slices ---------------- *)
+Lemma fold_bset_shape (f : band -> nat * nat -> Z) l : forall b h w,
+  band_shape b h w -> band_shape (fold_left (fun b yx => bset b (fst yx) (snd yx) (f b yx)) l b) h w.
+Proof. induction l as [|p l IH]; intros b h w H; [assumption|]. cbn [fold_left]. apply IH. apply band_shape_bset. assumption. Qed.
+
+Lemma apply_dc_shape b h w : band_shape b h w -> band_shape (apply_dc_prediction b) h w.
+Proof. intros H. unfold apply_dc_prediction. apply (fold_bset_shape (fun b yx => bget b (fst yx) (snd yx) - dc_pred b (fst yx) (snd yx))). assumption. Qed.
+
+Definition bands_wf (st : pystate) (comp : pystr) (bs : list subband) : Prop :=
+  Forall (fun s => 0 <= sb_level s <= depth_sum st + 1) bs /\ Forall (shape_ok st comp) bs.
+
+Lemma dc_bands_wf st comp bs : bands_wf st comp bs -> bands_wf st comp (dc_bands bs).
+Proof.
+  intros [H1 H2]. destruct bs as [|s r]; [split; constructor|].
+  inversion H1; inversion H2; subst. split; constructor; try assumption.
+  unfold shape_ok in *. cbn [sb_level sb_band fst snd]. apply apply_dc_shape. assumption.
+Qed.
+
+Lemma shape_of_dc bs : shape_of (dc_bands bs) = shape_of bs.
+Proof. destruct bs as [|s r]; reflexivity. Qed.
+
+Lemma decode_component_gathered st comp bs (dc : bool) (G : Z -> Z -> list Z) :
+  good_state st -> bands_wf st comp bs ->
+  (forall sx sy, 0 <= sx < st_slices_x st -> 0 <= sy < st_slices_y st ->
+     G sx sy = fst (gather_component st comp (if dc then dc_bands bs else bs) sx sy)) ->
+  decode_component st comp (shape_of bs) dc
+    (map (fun sy => map (fun sx => G sx sy) (EncoderSlices.zrange 0 (st_slices_x st))) (EncoderSlices.zrange 0 (st_slices_y st)))
+  = map sb_band bs.
+Proof.
+  intros Hg Hwf HG. unfold decode_component.
+  set (src := if dc then dc_bands bs else bs) in *.
+  assert (Hwf' : bands_wf st comp src) by (unfold src; destruct dc; [apply dc_bands_wf|]; assumption).
+  assert (Hsh : shape_of bs = shape_of src) by (unfold src; destruct dc; [rewrite shape_of_dc|]; reflexivity).
+  rewrite Hsh.
+  rewrite (map_ext_in _ (fun sy => map (fun sx => fst (gather_component st comp src sx sy)) (EncoderSlices.zrange 0 (st_slices_x st)))).
+  2:{ intros sy Hsy. apply map_ext_in. intros sx Hsx. apply in_zrange in Hsy, Hsx. apply HG; lia. }
+  destruct Hwf' as [W1 W2]. unfold shape_of. rewrite (gather_scatter st comp src Hg W1 W2).
+  unfold src. destruct dc; [|reflexivity].
+  destruct bs as [|s r]; [reflexivity|]. cbn [dc_bands map sb_band snd]. rewrite dc_roundtrip. reflexivity.
+Qed.
+
+Section Chain.
+  (* The wavelet round trip is property C11's; picture_encode / picture_decode (incl. padding,
+     offset and clipping) enter the composition only through this hypothesis. *)
+  Variable Pic : Type.
+  Variable dwt : Pic -> list subband * list subband * list subband.
+  Variable idwt : list band * list band * list band -> Pic.
+  Hypothesis idwt_dwt : forall p,
+    idwt (map sb_band (fst (fst (dwt p))), map sb_band (snd (fst (dwt p))), map sb_band (snd (dwt p))) = p.
+
+  Variable st : pystate.
+  Hypothesis st_good : good_state st.
+
+  Definition pic_wf (p : Pic) : Prop :=
+    bands_wf st Str_Y (fst (fst (dwt p))) /\ bands_wf st Str_C1 (snd (fst (dwt p))) /\ bands_wf st Str_C2 (snd (dwt p)).
+
+  (* what the decoder returns when, for every slice, the values it reads are V sx sy *)
+  Definition decode_model (p0 : Pic) (dc : bool) (V : Z -> Z -> list Z * list Z * list Z) : Pic :=
+    idwt (decode_picture st (shape_of (fst (fst (dwt p0)))) (shape_of (snd (fst (dwt p0)))) (shape_of (snd (dwt p0))) dc V).
+
+  (* the slice coefficients the encoder gathers for slice (sx, sy) *)
+  Definition encoder_slice (p : Pic) (dc : bool) (sx sy : Z) : scoeffs :=
+    let f bs := if dc then dc_bands bs else bs in
+    gathered st (f (fst (fst (dwt p)))) (f (snd (fst (dwt p)))) (f (snd (dwt p))) sx sy.
+
+  Theorem chain_core p dc V :
+    pic_wf p ->
+    (forall sx sy, 0 <= sx < st_slices_x st -> 0 <= sy < st_slices_y st ->
+       V sx sy = (fst (sc_Y (encoder_slice p dc sx sy)), fst (sc_C1 (encoder_slice p dc sx sy)), fst (sc_C2 (encoder_slice p dc sx sy)))) ->
+    decode_model p dc V = p.
+  Proof.
+    intros (Wy & W1 & W2) HV. unfold decode_model, decode_picture.
+    rewrite (decode_component_gathered st Str_Y _ dc (fun sx sy => fst (fst (V sx sy))) st_good Wy).
+    2:{ intros sx sy Hx Hy. rewrite (HV sx sy Hx Hy). destruct dc; reflexivity. }
+    rewrite (decode_component_gathered st Str_C1 _ dc (fun sx sy => snd (fst (V sx sy))) st_good W1).
+    2:{ intros sx sy Hx Hy. rewrite (HV sx sy Hx Hy). destruct dc; reflexivity. }
+    rewrite (decode_component_gathered st Str_C2 _ dc (fun sx sy => snd (V sx sy)) st_good W2).
+    2:{ intros sx sy Hx Hy. rewrite (HV sx sy Hx Hy). destruct dc; reflexivity. }
+    apply idwt_dwt.
+  Qed.
+End Chain.
+
+(* ---------------- the gathered slices are well formed ---------------- *)
+Lemma gather_cc_ok st comp bs sx sy :
+  Forall (fun s => 0 <= sb_qm s) bs -> cc_ok (gather_component st comp bs sx sy).
+Proof.
+  intros H. unfold cc_ok, gather_component. cbn [fst snd]. induction H as [|s bs Hs H [IH1 IH2]]; [split; [reflexivity|constructor]|].
+  cbn [flat_map]. split.
+  - rewrite !app_length, !map_length, IH1. reflexivity.
+  - apply Forall_app. split; [|assumption]. apply Forall_forall. intros m Hm. apply in_map_iff in Hm.
+    destruct Hm as [? [<- _]]. assumption.
+Qed.
+
+Lemma dc_bands_qm bs : Forall (fun s => 0 <= sb_qm s) bs -> Forall (fun s => 0 <= sb_qm s) (dc_bands bs).
+Proof. intros H. destruct bs as [|s r]; [constructor|]. inversion H; subst. constructor; assumption. Qed.
+
+Lemma slice_positions_C2_C1 st level sx sy :
+  slice_positions st Str_C2 level sx sy = slice_positions st Str_C1 level sx sy.
+Proof.
+  unfold slice_positions, slice_left, slice_right, slice_top, slice_bottom.
+  destruct (subband_C2_C1 st level) as [-> ->]. reflexivity.
+Qed.
+
+Lemma gather_len_C1_C2 st b1 b2 sx sy :
+  map sb_level b1 = map sb_level b2 ->
+  length (fst (gather_component st Str_C1 b1 sx sy)) = length (fst (gather_component st Str_C2 b2 sx sy)).
+Proof.
+  unfold gather_component. cbn [fst]. revert b2. induction b1 as [|s b1 IH]; intros [|t b2] H; try discriminate; [reflexivity|].
+  cbn [map] in H. inversion H as [[Hl Hr]]. cbn [flat_map]. rewrite !app_length, !map_length.
+  rewrite Hl, slice_positions_C2_C1. f_equal. apply IH. assumption.
+Qed.
+
+Lemma dc_bands_levels bs : map sb_level (dc_bands bs) = map sb_level bs.
+Proof. destruct bs; reflexivity. Qed.
+
+Section ChainTheorems.
+  Variable Pic : Type.
+  Variable dwt : Pic -> list subband * list subband * list subband.
+  Variable idwt : list band * list band * list band -> Pic.
+  Hypothesis idwt_dwt : forall p,
+    idwt (map sb_band (fst (fst (dwt p))), map sb_band (snd (fst (dwt p))), map sb_band (snd (dwt p))) = p.
+  Variable st : pystate.
+  Hypothesis st_good : good_state st.
+
+  (* matrix entries are unsigned *)
+  Definition pic_qm_ok (p : Pic) : Prop :=
+    Forall (fun s => 0 <= sb_qm s) (fst (fst (dwt p))) /\ Forall (fun s => 0 <= sb_qm s) (snd (fst (dwt p))) /\
+    Forall (fun s => 0 <= sb_qm s) (snd (dwt p)).
+
+  Lemma encoder_slice_cc_ok p dc sx sy : pic_qm_ok p ->
+    cc_ok (sc_Y (encoder_slice Pic dwt st p dc sx sy)) /\ cc_ok (sc_C1 (encoder_slice Pic dwt st p dc sx sy)) /\
+    cc_ok (sc_C2 (encoder_slice Pic dwt st p dc sx sy)).
+  Proof.
+    intros (Qy & Q1 & Q2). unfold encoder_slice, gathered, sc_Y, sc_C1, sc_C2. cbn [fst snd].
+    destruct dc; repeat split; apply gather_cc_ok; try apply dc_bands_qm; assumption.
+  Qed.
+
+  (* lossless HQ: every slice as built by make_transform_data_hq_lossless (any scaler >= 1) *)
+  Theorem chain_hq_lossless p s :
+    pic_wf Pic dwt st p -> pic_qm_ok p -> 1 <= s ->
+    decode_model Pic dwt idwt st p false
+      (fun sx sy => hq_slice_roundtrip s (encoder_slice Pic dwt st p false sx sy)
+                                       (lossless_slice s (encoder_slice Pic dwt st p false sx sy))) = p.
+  Proof.
+    intros Hwf Hq Hs. apply (chain_core Pic dwt idwt idwt_dwt st st_good); [assumption|].
+    intros sx sy _ _. destruct (encoder_slice_cc_ok p false sx sy Hq) as (Cy & C1 & C2).
+    apply lossless_slice_roundtrip; assumption.
+  Qed.
+
+  (* lossy HQ: slices produced by the search (hq_slice_ok, cf. C14) that all got index 0 *)
+  Theorem chain_hq_lossy_q0 p bst s minq (SL : Z -> Z -> hq_slice) :
+    pic_wf Pic dwt st p -> pic_qm_ok p -> 0 < s ->
+    (forall sx sy, 0 <= sx < st_slices_x st -> 0 <= sy < st_slices_y st ->
+       hq_slice_ok bst s minq sx sy (encoder_slice Pic dwt st p false sx sy) (SL sx sy) /\ hq_qindex (SL sx sy) = 0) ->
+    decode_model Pic dwt idwt st p false
+      (fun sx sy => hq_slice_roundtrip s (encoder_slice Pic dwt st p false sx sy) (SL sx sy)) = p.
+  Proof.
+    intros Hwf Hq Hs HSL. apply (chain_core Pic dwt idwt idwt_dwt st st_good); [assumption|].
+    intros sx sy Hx Hy. destruct (encoder_slice_cc_ok p false sx sy Hq) as (Cy & C1 & C2).
+    destruct (HSL sx sy Hx Hy) as [Hok H0].
+    apply (hq_lossy_q0_roundtrip bst s minq sx sy); assumption.
+  Qed.
+
+  (* lossy LD (with DC prediction): slices produced by the search that all got index 0 *)
+  Theorem chain_ld_lossy_q0 p bst minq (SL : Z -> Z -> ld_slice) :
+    pic_wf Pic dwt st p -> pic_qm_ok p ->
+    map sb_level (snd (fst (dwt p))) = map sb_level (snd (dwt p)) ->
+    (forall sx sy, 0 <= sx < st_slices_x st -> 0 <= sy < st_slices_y st ->
+       ld_slice_ok bst minq sx sy (encoder_slice Pic dwt st p true sx sy) (SL sx sy) /\ ld_qindex (SL sx sy) = 0) ->
+    decode_model Pic dwt idwt st p true
+      (fun sx sy => ld_slice_roundtrip (slice_bytes bst sx sy) (encoder_slice Pic dwt st p true sx sy) (SL sx sy)) = p.
+  Proof.
+    intros Hwf Hq Hlev HSL. apply (chain_core Pic dwt idwt idwt_dwt st st_good); [assumption|].
+    intros sx sy Hx Hy. destruct (encoder_slice_cc_ok p true sx sy Hq) as (Cy & C1 & C2).
+    destruct (HSL sx sy Hx Hy) as [Hok H0].
+    apply (ld_q0_roundtrip bst minq sx sy); try assumption.
+    unfold encoder_slice, gathered, sc_C1, sc_C2. cbn [fst snd].
+    apply gather_len_C1_C2. rewrite !dc_bands_levels. assumption.
+  Qed.
+End ChainTheorems.
+
+(* ---------------- "fits" is monotone in the index (so even a bisection would be exact) ---------------- *)
+Lemma bit_length_mono a b : 0 <= a <= b -> bit_length a <= bit_length b.
+Proof.
+  intros [Ha Hab]. destruct a as [|p|p]; try lia.
+  - apply bit_length_nonneg.
+  - destruct b as [|q|q]; try lia. cbn [bit_length].
+    pose proof (Z.log2_le_mono (Z.pos p) (Z.pos q) Hab). lia.
+Qed.
+
+Lemma sgl_mono a b : Z.abs a <= Z.abs b -> signed_exp_golomb_length a <= signed_exp_golomb_length b.
+Proof.
+  intros H. unfold signed_exp_golomb_length, exp_golomb_length, py_abs.
+  replace (Z.abs a <? 0) with false by lia. replace (Z.abs b <? 0) with false by lia.
+  pose proof (bit_length_mono (Z.abs a + 1) (Z.abs b + 1) ltac:(lia)).
+  destruct (a =? 0) eqn:Ea; destruct (b =? 0) eqn:Eb; cbn [negb]; try lia.
+Qed.
+
+Lemma Forall2_len {A B} (R : A -> B -> Prop) l l' : Forall2 R l l' -> length l = length l'.
+Proof. induction 1; cbn; congruence. Qed.
+
+(* pointwise smaller magnitudes never need more bits *)
+Lemma ccb_fold_mono l' l : Forall2 (fun a b => Z.abs a <= Z.abs b) l' l ->
+  forall n' n (sk' sk : bool), n' <= n -> (sk = true -> sk' = true) ->
+  fst (fold_left ccb_step l' (n', sk')) <= fst (fold_left ccb_step l (n, sk)).
+Proof.
+  induction 1 as [|a b l' l Hab H IH]; intros n' n sk' sk Hn Hsk; [cbn; assumption|].
+  cbn [fold_left]. unfold ccb_step at 2 4.
+  pose proof (sgl_mono a b Hab) as Hs. pose proof (sgl_pos b) as Hb1.
+  destruct sk'; cbn [andb].
+  - destruct (a =? 0) eqn:Ea.
+    + destruct (sk && (b =? 0)); apply IH; try lia; try reflexivity; intros; reflexivity.
+    + assert (b <> 0) by lia. replace (b =? 0) with false by lia. rewrite andb_false_r.
+      apply IH; [lia|intros; discriminate].
+  - assert (sk = false) by (destruct sk; [specialize (Hsk eq_refl); discriminate|reflexivity]). subst sk.
+    cbn [andb]. apply IH; [lia|intros; discriminate].
+Qed.
+
+Lemma Forall2_rev {A B} (R : A -> B -> Prop) l l' : Forall2 R l l' -> Forall2 R (rev l) (rev l').
+Proof. induction 1; cbn [rev]; [constructor|]. apply Forall2_app; [assumption|constructor; [assumption|constructor]]. Qed.
+
+Lemma ccb_mono l' l : Forall2 (fun a b => Z.abs a <= Z.abs b) l' l -> calculate_coeffs_bits l' <= calculate_coeffs_bits l.
+Proof.
+  intros H. unfold calculate_coeffs_bits. apply ccb_fold_mono; [apply Forall2_rev; assumption|lia|auto].
+Qed.
+
+Lemma forward_quant_abs_mono c i j : 0 <= i <= j -> Z.abs (forward_quant c j) <= Z.abs (forward_quant c i).
+Proof.
+  intros Hij. pose proof (quant_factor_mono i j Hij). pose proof (quant_factor_ge4 i ltac:(lia)).
+  unfold forward_quant, py_abs, py_div.
+  assert (0 <= 4 * Z.abs c / quant_factor j <= 4 * Z.abs c / quant_factor i).
+  { split; [apply Z.div_pos; lia|]. apply Z.div_le_compat_l; lia. }
+  destruct (c >=? 0); lia.
+Qed.
+
+Lemma quantize_coeffs_mono q q' cs qms : q <= q' ->
+  Forall2 (fun a b => Z.abs a <= Z.abs b) (quantize_coeffs q' cs qms) (quantize_coeffs q cs qms).
+Proof.
+  intros Hq. unfold quantize_coeffs. induction (combine cs qms) as [|p l IH]; [constructor|].
+  cbn [map]. constructor; [|assumption]. apply forward_quant_abs_mono. unfold py_max. lia.
+Qed.
+
+Theorem fits_monotone t sets a q q' : 0 < a -> q <= q' -> fits t sets a q = true -> fits t sets a q' = true.
+Proof.
+  intros Ha Hq. unfold fits, total_length. intros H.
+  assert (py_sum (map (block_len a) (quantize_sets q' sets)) <= py_sum (map (block_len a) (quantize_sets q sets))); [|lia].
+  clear H. unfold quantize_sets. induction sets as [|cc sets IH]; [cbn; lia|].
+  cbn [map]. unfold py_sum in *. cbn [fold_right].
+  pose proof (ccb_mono _ _ (quantize_coeffs_mono q q' (fst cc) (snd cc) Hq)) as Hm.
+  unfold block_len, py_div.
+  assert ((calculate_coeffs_bits (quantize_coeffs q' (fst cc) (snd cc)) + a - 1) / a
+          <= (calculate_coeffs_bits (quantize_coeffs q (fst cc) (snd cc)) + a - 1) / a) as Hd by (apply Z.div_le_mono; lia).
+  apply (Z.mul_le_mono_nonneg_r _ _ a) in Hd; [|lia].
+  apply Z.add_le_mono; [exact Hd|exact IH].
+Qed.
+
+(* ---------------- lossless packer: length fields fit 8 bits ---------------- *)
+Lemma fold_left_max_ge r : forall a x, (x = a \/ In x r) -> x <= fold_left Z.max r a.
+Proof.
+  induction r as [|y r IH]; intros a x H; cbn [fold_left].
+  - destruct H as [->|[]]. lia.
+  - destruct H as [->|[->|H]].
+    + eapply Z.le_trans; [|apply (IH (Z.max a y) (Z.max a y)); left; reflexivity]. lia.
+    + eapply Z.le_trans; [|apply (IH (Z.max a x) (Z.max a x)); left; reflexivity]. lia.
+    + apply IH. right. assumption.
+Qed.
+
+Lemma list_max_ge l x : In x l -> x <= list_max l.
+Proof. destruct l as [|a r]; [intros []|]. intros [->|H]; apply fold_left_max_ge; [left; reflexivity|right; assumption]. Qed.
+
+Lemma rescale_le_255 L M s : 0 <= L <= M -> 1 <= s -> (M + 254) / 255 <= s -> 0 <= (L + (s - 1)) / s <= 255.
+Proof.
+  intros HL Hs HM. assert (M <= 255 * s) by lia. split; [apply Z.div_pos; lia|].
+  assert ((L + (s - 1)) / s < 256) by (apply Z.div_lt_upper_bound; lia). lia.
+Qed.
+
+Theorem lossless_fields_8bit rows mins :
+  Forall (fun sl => 0 <= hq_y_length sl <= 255 /\ 0 <= hq_c1_length sl <= 255 /\ 0 <= hq_c2_length sl <= 255 /\ hq_qindex sl = 0)
+         (snd (make_transform_data_hq_lossless rows mins)).
+Proof.
+  unfold make_transform_data_hq_lossless. cbn [snd].
+  set (base := map _ (concat rows)). set (M := list_max (map hq_max_length base)).
+  set (s := py_max (py_max 1 mins) (py_div (M + 254) 255)).
+  assert (Hs1 : 1 <= s) by (unfold s, py_max; lia).
+  assert (HsM : (M + 254) / 255 <= s) by (unfold s, py_max, py_div; lia).
+  apply Forall_forall. intros sl Hin. apply in_map_iff in Hin. destruct Hin as [b [<- Hb]].
+  assert (HbM : hq_max_length b <= M) by (apply list_max_ge; apply in_map; assumption).
+  unfold base in Hb. apply in_map_iff in Hb. destruct Hb as [sc [<- _]].
+  unfold hq_max_length, py_max in HbM. unfold rescale_hq_slice, make_hq_slice in *. 
+  cbn [hq_y_length hq_c1_length hq_c2_length hq_qindex hq_y hq_c1 hq_c2] in *.
+  pose proof (hq_len_nonneg (fst (sc_Y sc)) 1 ltac:(lia)). pose proof (hq_len_nonneg (fst (sc_C1 sc)) 1 ltac:(lia)).
+  pose proof (hq_len_nonneg (fst (sc_C2 sc)) 1 ltac:(lia)).
+  unfold py_div. repeat split; try apply (rescale_le_255 _ M s); try apply (proj1 (rescale_le_255 _ M s _ Hs1 HsM)); try lia.
+  all: try (apply (proj2 (rescale_le_255 _ M s ltac:(split; [eassumption|lia]) Hs1 HsM))).
+Qed.
